@@ -91,6 +91,13 @@ pub struct Inp {
     pub marks: Vec<usize>,
     /// record body ranges [start, end) (Avro single-object / Confluent framing)
     pub bodies: Vec<(usize, usize)>,
+    /// cut positions that are always exercised, for every batch size: each as a two-chunk session and all
+    /// together as one session (e.g. every byte of the framing varints of an Avro file)
+    pub must: Vec<usize>,
+    /// batch sizes to use instead of BATCH_SIZES (inputs with very many rows)
+    pub batch_sizes: Option<Vec<usize>>,
+    /// only the whole input, the `must` cuts and a few random multi-splits (inputs with very many rows)
+    pub lean: bool,
     pub cfg: Cfg,
     pub uses_bs: bool,
     /// may the protocol deliver empty chunks before the end of the input
@@ -266,6 +273,21 @@ fn plan_group(inp: &Inp, rng: &mut Rng, thorough: bool, primary: bool) -> Vec<(V
         }
         return plans;
     }
+    // the cuts every group has to contain
+    let must: Vec<usize> = inp.must.iter().copied().filter(|c| *c >= 1 && *c < n).collect::<BTreeSet<_>>().into_iter().collect();
+    for &c in &must {
+        add(&mut plans, vec![c], "canon");
+    }
+    if !must.is_empty() {
+        add(&mut plans, must.clone(), "canon");
+    }
+    if inp.lean {
+        for _ in 0..3 {
+            let c = random_cuts(rng, n, inp.allow_empty);
+            add(&mut plans, c, "canon");
+        }
+        return plans;
+    }
     let marks: Vec<usize> = inp.marks.iter().copied().filter(|c| *c >= 1 && *c < n).collect();
     let mut near: BTreeSet<usize> = BTreeSet::new();
     for &m in &marks {
@@ -369,6 +391,15 @@ fn plan_group(inp: &Inp, rng: &mut Rng, thorough: bool, primary: bool) -> Vec<(V
 fn main() {
     let args = Args::parse();
     vcore::quiet_panics();
+    if args.driver == "probe-vl" {
+        // probe (not part of the check): the framing varints of the "vl-" Avro inputs
+        for i in avro::inputs(&mut Rng::new(1), true).iter().filter(|i| i.name.starts_with("vl-")) {
+            let must: BTreeSet<usize> = i.must.iter().copied().collect();
+            let runs: Vec<String> = i.marks.iter().filter(|m| **m + 6 <= i.bytes.len()).take(8).map(|m| format!("{}:{:02x?}", m, &i.bytes[*m..*m + 4])).collect();
+            println!("{} {} n={} must={} lean={} {:?}", i.fmt, i.name, i.n, must.len(), i.lean, runs);
+        }
+        return;
+    }
     if args.driver == "probe-ocf-count" {
         avro::probe_count();
         return;
@@ -407,7 +438,7 @@ fn main() {
         }
         out.inputs += 1;
         out.bytes_max = out.bytes_max.max(inp.bytes.len());
-        let sizes: Vec<usize> = if inp.uses_bs { BATCH_SIZES.to_vec() } else { vec![0] };
+        let sizes: Vec<usize> = if !inp.uses_bs { vec![0] } else { inp.batch_sizes.clone().unwrap_or(BATCH_SIZES.to_vec()) };
         let prim = id % sizes.len();
         for (bi, &bs) in sizes.iter().enumerate() {
             out.oneshot(id, inp, bs);
